@@ -365,6 +365,6 @@ package fzf
 //@ property C16
 //@ requires server != nil
 //@ effect call server.getHandler requires len(server.apiKey) == 0 || content_eq(bytesOf(apiKey), server.apiKey)
-//@ effect send server.actionChannel requires (len(server.apiKey) == 0 || content_eq(bytesOf(apiKey), server.apiKey)) && len(actions) > 0 && !isGet
+//@ effect send server.actionChannel requires (len(server.apiKey) == 0 || content_eq(bytesOf(apiKey), server.apiKey)) && len(actions) > 0
 //@ loop 1
 //@   invariant 0 <= section && section <= 2 && 0 <= contentLength && contentLength <= 1048576 && (section == 2 ==> contentLength > 0)
